@@ -93,6 +93,7 @@ def run(ctx):
         ctx.oblige("run:driver", False, out[-800:])
 
     probe = {}
+    probe_init = None
     evals = 0
     kinds = Counter()
     variants = Counter()
@@ -134,6 +135,9 @@ def run(ctx):
             continue
         cid, kv = parse_kv_line(line)
         kind = kv.get("kind")
+        if kind == "W":
+            probe_init = kv.get("initinsert")
+            continue
         if kind == "V":
             # which LossyUtf8 port the real code follows was PROBED (ab\\xe2 / ab\\xff), not looked up
             probe = {"fix_final_invalid_in_effect": kv.get("fixfinal"), "fix_truncated_tail_in_effect": kv.get("fixtrunc"), "raw": kv.get("raw")}
@@ -177,7 +181,9 @@ def run(ctx):
             dist["F:scope-stack-judge=%s" % ("FAIL" if stk.startswith("FAIL") else stk)] += 1
             if stk.startswith("FAIL"):
                 report_judge(cid, kv, "scope-stack", "the highlights active over Source span %s are not the ones of the layers' captures containing it "
-                             "(an End closed another capture's highlight)" % stk[5:])
+                             "(an End closed another capture's highlight, or a highlight was not opened/closed in place)" % stk[5:], kv.get("cause", "-"))
+            if kv.get("initsorted") == "0":
+                dist["F:initial-layers-not-ordered-by-sort_key"] += 1
             if kv.get("refsup") != "1" or kv.get("defsin") != "1":
                 report_corr(cid, kv, "a real case violates refsUp/defsIn (hypotheses of merge_full_wellformed)", "refsUp/defsIn(full)")
             if kv.get("wf") != "ok":
@@ -338,7 +344,7 @@ def run(ctx):
                 "through Highlighter::highlight (one highlighter reused for all documents) and HtmlRenderer.  Non-trivial := H with >=2 nested "
                 "highlights or >=1 injection layer; N (multi-layer merge model vs real stream, no locals) with >=2 layers; R well-formed with >=1 highlight; L with >=1 byte >= 0x80.  Distinct by SHA-1 of the case spec.",
         "samples": samples,
-        "kinds": dict(kinds), "corr_results": dict(variants), "lossy_port_selected_by_probe": probe,
+        "kinds": dict(kinds), "corr_results": dict(variants), "lossy_port_selected_by_probe": probe, "initial_layer_insertion_probed": probe_init,
         "distribution": dict(sorted(dist.items())),
         "highlight_doc_bytes": {"min": sizes[0] if sizes else 0, "median": sizes[len(sizes) // 2] if sizes else 0, "max": sizes[-1] if sizes else 0},
         "judge_failures_by_clause_and_cause": dict(causes),
